@@ -436,7 +436,15 @@ def r_mask(ctx):
         is_n2d = arg is not None and call_name(arg) is not None and call_name(arg).endswith('.number_to_dna')
         rev_ = arg is not None and any((x[0] == 'sub' and x[2] == ('slice', ('c', None), ('c', None), ('c', -1))) or
                                        is_call(x, 'builtins.reversed') for x in walk_term(arg))
-        if not ok and not is_n2d and not rev_:
+        ser_ = _inline_render(f, arg, i, K) if arg is not None and not ok else None
+        if ser_ == 'msb-first':
+            run.ok('R-MASK', f, 'verdict-on-own-kmer', nd.lineno, 'the k-mer of the index is rendered digit by digit, most significant first')
+        elif ser_ == 'lsb-first':
+            run.refute('R-MASK', f, 'verdict-on-own-kmer', nd.lineno,
+                       'the judged string is rendered from the index digit by digit, but each peeled digit (the LEAST significant remaining '
+                       'one) is appended at the end: the filter judges the reversed k-mer, so mask[i] does not say whether the k-mer of '
+                       'index i is valid', inputs='every k-mer that is not a palindrome')
+        elif not ok and not is_n2d and not rev_:
             run.undecided('R-MASK', f, 'verdict-on-own-kmer', nd.lineno, 'the judged string %s is not number_to_dna(index, K) in a recognised form'
                           % (show(arg)[:60] if arg else None))
         else:
@@ -452,6 +460,53 @@ def r_mask(ctx):
     run.check(bool(ok), 'R-MASK', f, 'returns-mask', rets[0].lineno if rets else nd.lineno, 'the mask is returned',
               'find_vertices returns something other than the mask it filled', nontrivial=False)
     return val, nd
+
+
+def _inline_render(f, arg, i, K):
+    """S = ""; r = i; for _ in range(K): r, d = divmod(r, 4); S = ALPHA[d] + S   ->  'msb-first'
+    the same with S = S + ALPHA[d] -> 'lsb-first'; anything else -> None"""
+    if not (arg[0] == 'v' and isinstance(arg[2], tuple) and len(arg[2]) == 2):
+        return None
+    by_id = {d.id: d for d in f.defs}
+    terms = {v: TermBuilder(f, by_id[v].node).def_term(v) for v in arg[2] if v in by_id}
+    if len(terms) != 2:
+        return None
+    init = [v for v, t in terms.items() if t == ('c', '')]
+    step = [v for v, t in terms.items() if t is not None and t[0] == 'bin' and t[1] == '+']
+    if len(init) != 1 or len(step) != 1:
+        return None
+    sd = by_id[step[0]]
+    sn = f.nodes[sd.node]
+    if not sn.loops:
+        return None
+    L = f.nodes[sn.loops[-1]]
+    if not isinstance(L.stmt, ast.For):
+        return None
+    it = f.term(L.stmt.iter, L)
+    if not (is_call(it, 'builtins.range') and len(it[2]) == 1 and it[2][0] == K):
+        return None
+    if sn.loops[-1] in f.nodes[by_id[init[0]].node].loops:
+        return None
+    a, b = terms[step[0]][2], terms[step[0]][3]
+    if a == arg:
+        order, dig = 'lsb-first', b
+    elif b == arg:
+        order, dig = 'msb-first', a
+    else:
+        return None
+    from .walk import is_alpha
+    if not (dig[0] == 'sub' and is_alpha(dig[1]) and dig[2][0] == 'bin' and dig[2][1] == '%' and dig[2][3] == ('c', 4)):
+        return None
+    r = dig[2][2]
+    if not (r[0] == 'v' and isinstance(r[2], tuple) and len(r[2]) == 2):
+        return None
+    rt = {v: TermBuilder(f, by_id[v].node).def_term(v) for v in r[2] if v in by_id}
+    starts = [t for t in rt.values() if t is not None and strip_int(t) == i]
+    divs = [t for t in rt.values() if t == ('bin', '//', r, ('c', 4))]
+    if len(starts) != 1 or len(divs) != 1:
+        return None
+    # the digit is read before the remaining value is divided in the same round (tuple assignment / divmod) or in this order
+    return order
 
 
 def r_iface(ctx, val_nd=None):
